@@ -1,8 +1,11 @@
 import ClvmModel.Proto.Varint
 import ClvmModel.Proto.Alloc
 import ClvmModel.Proto.Classic
+import ClvmModel.Proto.Run
+import ClvmModel.Proto.Backref
 import ClvmModel.Proto.TreeHash
 import ClvmModel.Proto.Crypto
+import ClvmModel.Proto.Serde2026
 open Clvm Clvm.Proto
 
 /-- one request line `<KIND> <id> <args…>` ↦ one reply line `<id> <reply>` -/
@@ -19,12 +22,21 @@ def handleLine (line : String) : String :=
       | "ALLOC" => handleAlloc args
       | "SER" => (match args with
           | "classic" :: _ => handleSerClassic args
+          | "br" :: _ => handleSerBackref args
+          | f :: _ => if f.startsWith "2026:" then handleSer2026 args else none
           | _ => none)
       | "DE" => (match args with
           | "classic" :: _ | "lent" :: _ | "canon" :: _ => handleDeClassic args
+          | "br" :: _ | "brold" :: _ | "len" :: _ => handleDeBackref args
+          | "2026" :: _ | "len2026" :: _ => handleDe2026 args
           | _ => none)
+      | "INTERN" => handleIntern args
+      | "PATH" => handlePath args
       | "LEN" => handleLen args
       | "PFX" => handlePfx args
+      | "RUN" => handleRunWith {} noExtra args
+      | "OP" => handleOpWith {} noExtra args
+      | "UNK" => handleUnknown args
       | _ => none
     match r with
     | some s => id ++ " " ++ s
